@@ -238,3 +238,244 @@ Theorem C16_search_axis_distance_partial : forall a s v p, 0 <= s -> a <= p <= a
   Z.abs (axis_dist a s v) <= Z.abs (v - p).
 Proof. exact axis_dist_lower. Qed.
 Print Assumptions C16_search_axis_distance_partial.
+
+(* ==== F. legacy photon traversal: CartesianDensityGrid::interact and AMRDensityGrid::interact ================
+   Vocabulary (Cxx/C16_InteractDefs.v: the models, written once over a scalar type; Cxx/C16_InteractCart.v,
+   Cxx/C16_InteractAMR.v: proofs for the real-number instance ROps; Cxx/C16_InteractExamples.v: binary64 runs):
+     cart_interact ROps fuel g cells ph target   the model of CartesianDensityGrid::interact (fuel = loop bound)
+     amr_interact ROps sqrt (1/2) true true true fuel g cells ph target
+                                                 the model of the REPAIRED AMRDensityGrid::interact (the three
+                                                 flags false = the pinned code, see the _refuted theorems)
+     cr_cell / ar_cell   the returned iterator (None = end()), cr_pos / ar_pos the photon position after the call,
+     cr_vis / ar_vis     the update_integrals calls (cell, length) in program order, cr_fin / ar_fin the loop state
+     cgood / agood       premises: box sides > 0, cell / block counts >= 1, start inside the half open box,
+                         non-negative densities, fractions and cross sections, target > 0, some direction
+                         component d_j <> 0 with cell size_j < DBL_MAX |d_j| (AMR: unit direction)
+     lkappa cells ph c   the opacity n (sigma_H x_H + sigma_He x_He) of cell c;  sumlen / sumtau: sums over visits
+     shift_ok per W      W is an integer number of box periods per axis, 0 on every non-periodic axis
+     in_cell j p / in_tbox (box_of .. c) p   p lies in the CLOSED box of cell j / of the AMR cell c
+     ray d p0 s          the point p0 + s d of the straight line;  shifted p W = p + W * box sides *)
+From Coq Require Import Reals Floats.
+From CMI Require Import Cxx.C02_Defs Cxx.C02_Proofs Cxx.C16_InteractDefs Cxx.C16_InteractCart Cxx.C16_InteractAMR
+  Cxx.C16_InteractExamples.
+Local Open Scope R_scope.
+
+(* (a) the credited lengths are non-negative and the photon ends at start + (their sum) * direction, moved by
+   whole box sides along periodic axes only *)
+Theorem C16_cart_path_sum : forall anchor sides n per cells ph target, cgood anchor sides n cells ph target ->
+  forall fuel r, cart_interact ROps fuel (make_cgrid ROps anchor sides n per) cells ph target = COk r ->
+  Forall (fun v => 0 <= snd v) (cr_vis r) /\
+  exists W, shift_ok per W /\
+    forall a, vg a (cr_pos r) = vg a (lp_pos ph) + sumlen (cr_vis r) * vg a (lp_dir ph) + IZR (W a) * vg a sides.
+Proof. exact cart_path_thm. Qed.
+Print Assumptions C16_cart_path_sum.
+
+(* (a) every cell is credited the length of the ray inside it: visit k covers the parameter interval
+   [s0, s0 + len], s0 = sum of the earlier lengths, and that whole piece of the straight line (modulo box
+   periods) lies in the closed box of the credited cell, which is a cell of the grid *)
+Theorem C16_cart_segments_in_cells : forall anchor sides n per cells ph target, cgood anchor sides n cells ph target ->
+  forall fuel r k c len, cart_interact ROps fuel (make_cgrid ROps anchor sides n per) cells ph target = COk r ->
+  nth_error (cr_vis r) k = Some (c, len) ->
+  exists j w, in_range n j /\ clong (make_cgrid ROps anchor sides n per) j = c /\ shift_ok per w /\
+    forall s, sumlen (firstn k (cr_vis r)) <= s <= sumlen (firstn k (cr_vis r)) + len ->
+              in_cell anchor sides n j (shifted sides (ray (lp_dir ph) (lp_pos ph) s) w).
+Proof. exact cart_segments_thm. Qed.
+Print Assumptions C16_cart_segments_in_cells.
+
+(* (b) optical depth used = sum of opacity * length: the target when a cell is returned, target - (what is
+   left) >= ... <= target when end() is returned *)
+Theorem C16_cart_tau_sum : forall anchor sides n per cells ph target, cgood anchor sides n cells ph target ->
+  forall fuel r, cart_interact ROps fuel (make_cgrid ROps anchor sides n per) cells ph target = COk r ->
+  sumtau (lkappa cells ph) (cr_vis r) <= target /\
+  (cr_cell r <> None -> sumtau (lkappa cells ph) (cr_vis r) = target) /\
+  (cr_cell r = None -> 0 <= cs_tau (cr_fin r) /\ sumtau (lkappa cells ph) (cr_vis r) = target - cs_tau (cr_fin r)).
+Proof. exact cart_tau_thm. Qed.
+Print Assumptions C16_cart_tau_sum.
+
+(* (c) absorbed: the target is reached, the returned cell is the cell of the last visit, a cell of the grid, and
+   its closed box contains the final position: exactly when the target was reached before the wall of the cell
+   (cs_tau < 0), up to box periods when it was reached exactly on a (periodic) wall *)
+Theorem C16_cart_absorbed_in_returned_cell : forall anchor sides n per cells ph target, cgood anchor sides n cells ph target ->
+  forall fuel r c, cart_interact ROps fuel (make_cgrid ROps anchor sides n per) cells ph target = COk r -> cr_cell r = Some c ->
+  sumtau (lkappa cells ph) (cr_vis r) = target /\ cs_tau (cr_fin r) <= 0 /\
+  (exists pre len, cr_vis r = pre ++ [(c, len)]) /\
+  exists j wl, in_range n j /\ clong (make_cgrid ROps anchor sides n per) j = c /\ shift_ok per wl /\
+    in_cell anchor sides n j (shifted sides (cr_pos r) wl) /\
+    (cs_tau (cr_fin r) < 0 -> forall a, wl a = 0%Z).
+Proof. exact cart_absorbed_thm. Qed.
+Print Assumptions C16_cart_absorbed_in_returned_cell.
+
+(* (c) escaped: end() is returned only with the photon ON an open face of the box, moving outward, the index one
+   step outside the grid through that face, and the target not exceeded *)
+Theorem C16_cart_escaped_through_open_face : forall anchor sides n per cells ph target, cgood anchor sides n cells ph target ->
+  forall fuel r, cart_interact ROps fuel (make_cgrid ROps anchor sides n per) cells ph target = COk r -> cr_cell r = None ->
+  0 <= cs_tau (cr_fin r) /\ sumtau (lkappa cells ph) (cr_vis r) = target - cs_tau (cr_fin r) /\
+  exists a, bg a per = false /\
+    ((ig a (cs_idx (cr_fin r)) = (-1)%Z /\ vg a (cr_pos r) = vg a anchor /\ vg a (lp_dir ph) < 0) \/
+     (ig a (cs_idx (cr_fin r)) = ig a n /\ vg a (cr_pos r) = vg a anchor + vg a sides /\ 0 < vg a (lp_dir ph))).
+Proof. exact cart_escaped_thm. Qed.
+Print Assumptions C16_cart_escaped_through_open_face.
+
+(* (d) the final position lies in the closed box on every axis ... *)
+Theorem C16_cart_final_position_in_box : forall anchor sides n per cells ph target, cgood anchor sides n cells ph target ->
+  forall fuel r, cart_interact ROps fuel (make_cgrid ROps anchor sides n per) cells ph target = COk r ->
+  forall a, vg a anchor <= vg a (cr_pos r) <= vg a anchor + vg a sides.
+Proof. exact cart_in_box_thm. Qed.
+Print Assumptions C16_cart_final_position_in_box.
+
+(* (d) ... and the position is NOT moved along an axis whose faces the straight line does not reach *)
+Theorem C16_cart_no_spurious_wrap : forall anchor sides n per cells ph target, cgood anchor sides n cells ph target ->
+  forall fuel r a, cart_interact ROps fuel (make_cgrid ROps anchor sides n per) cells ph target = COk r ->
+  (forall s, 0 <= s <= sumlen (cr_vis r) -> vg a anchor < vg a (lp_pos ph) + s * vg a (lp_dir ph) < vg a anchor + vg a sides) ->
+  vg a (cr_pos r) = vg a (lp_pos ph) + sumlen (cr_vis r) * vg a (lp_dir ph).
+Proof. exact cart_no_spurious_wrap_thm. Qed.
+Print Assumptions C16_cart_no_spurious_wrap.
+
+(* the "Photon leaves the system immediately" error is unreachable for a start inside the box *)
+Theorem C16_cart_no_leave_error : forall anchor sides n per cells ph target, cgood anchor sides n cells ph target ->
+  forall fuel, cart_interact ROps fuel (make_cgrid ROps anchor sides n per) cells ph target <> CErrLeaves.
+Proof. exact cart_no_leave_error_thm. Qed.
+Print Assumptions C16_cart_no_leave_error.
+
+(* PARTIAL (termination): with open boundaries nx + ny + nz + 1 passes through the loop suffice.  With periodic
+   boundaries no bound exists: a photon in a periodic box of zero opacity never stops (the real loop does not
+   return either); the other theorems hold for every fuel for which the model returns *)
+Theorem C16_cart_fuel_suffices_partial : forall anchor sides n per cells ph target, cgood anchor sides n cells ph target ->
+  forall fuel, (forall a, bg a per = false) -> (Z.to_nat (ix n + iy n + iz n + 1) <= fuel)%nat ->
+  exists r, cart_interact ROps fuel (make_cgrid ROps anchor sides n per) cells ph target = COk r.
+Proof. exact cart_fuel_suffices_thm. Qed.
+Print Assumptions C16_cart_fuel_suffices_partial.
+
+(* update_integrals on the hydrogen mean intensity: + weight * sigma_H * (length credited to the cell); cells of
+   zero density are not touched *)
+Theorem C16_cart_J_exact : forall (cells : Z -> cellc R) (ph : lphoton R) (vis : list (Z * R)) (j0 : R) (c : Z),
+  cart_J ROps cells ph j0 vis c =
+  if Rltb 0 (c_n (cells c)) then j0 + len_in c vis * lp_w ph * lp_sH ph else j0.
+Proof. exact cart_J_exact_thm. Qed.
+Print Assumptions C16_cart_J_exact.
+
+Theorem C16_cart_premises_satisfiable :
+  cgood (mkV 0 0 0) (mkV 1 1 1) (mkI 8 8 8) (fun _ => mkC 1 1 0) (mkLP (mkV (1 / 2) (1 / 2) (1 / 2)) (mkV 1 0 0) 1 0 1) (1 / 4).
+Proof. exact cgood_example. Qed.
+Print Assumptions C16_cart_premises_satisfiable.
+
+(* binary64 run of the seeded-regression input: absorbed in an outermost cell while heading outward *)
+Theorem C16_cart_example_absorbed_in_outermost_cell :
+  exists r, f_cart_interact fuel100 cg_open (fun _ => one_cell) (ph_of (mkV 0.9375 0.5 0.5) (mkV 1 0 0))%float 0.03125%float = COk r /\
+            cr_cell r = Some 484%Z /\ cr_pos r = (mkV 0.96875 0.5 0.5)%float /\ cr_vis r = [(484%Z, 0.03125%float)].
+Proof. exact f_cart_absorbed_in_outermost_cell. Qed.
+Print Assumptions C16_cart_example_absorbed_in_outermost_cell.
+
+(* ---- AMR: the repaired code, EVERY tree (= every refinement history), every block count ---- *)
+
+(* set_ngbs: the pointer stored for direction (a, high) of a valid cell: none exactly at an open box face; else a
+   valid cell of the same or a coarser level (single if coarser) that touches the face (one box period away when
+   the face is a periodic box face) and covers the cell's extent on the other two axes *)
+Theorem C16_amr_neighbour_pointers : forall g : agrid R,
+  (forall a, 0 < vg a (ag_sides g)) -> (forall a, (1 <= ig a (ag_n g))%Z) ->
+  forall rp b a high, valid g (b, rp) -> ngb_spec g (b, rp) a high (ngb_rp g b rp (az a) high).
+Proof. exact ngb_rp_spec. Qed.
+Print Assumptions C16_amr_neighbour_pointers.
+
+(* get_cell_index: a position in the half open box is located in a single cell whose closed box contains it *)
+Theorem C16_amr_locate_containing_cell : forall g : agrid R,
+  (forall a, 0 < vg a (ag_sides g)) -> (forall a, (1 <= ig a (ag_n g))%Z) ->
+  forall q, (forall a, vg a (ag_anchor g) <= vg a q < vg a (ag_anchor g) + vg a (ag_sides g)) ->
+  okleaf g (amr_locate ROps (1 / 2) g q) /\ in_tbox (box_of ROps (1 / 2) g (amr_locate ROps (1 / 2) g q)) q.
+Proof. exact amr_locate_spec. Qed.
+Print Assumptions C16_amr_locate_containing_cell.
+
+Theorem C16_amr_path_sum : forall g cells ph target, agood g cells ph target ->
+  forall fuel r, amr_interact ROps R_sqrt.sqrt (1 / 2) true true true fuel g cells ph target = AOk r ->
+  Forall (fun v => 0 <= snd v) (ar_vis r) /\
+  exists W, ashift_ok g W /\
+    forall a, vg a (ar_pos r) = vg a (lp_pos ph) + sumlenA (ar_vis r) * vg a (lp_dir ph) + IZR (W a) * vg a (ag_sides g).
+Proof. exact amr_path_thm. Qed.
+Print Assumptions C16_amr_path_sum.
+
+Theorem C16_amr_segments_in_cells : forall g cells ph target, agood g cells ph target ->
+  forall fuel r k c len, amr_interact ROps R_sqrt.sqrt (1 / 2) true true true fuel g cells ph target = AOk r ->
+  nth_error (ar_vis r) k = Some (c, len) ->
+  okleaf g c /\ exists w, ashift_ok g w /\
+    forall s, sumlenA (firstn k (ar_vis r)) <= s <= sumlenA (firstn k (ar_vis r)) + len ->
+              in_tbox (box_of ROps (1 / 2) g c) (ashifted g (aray (lp_dir ph) (lp_pos ph) s) w).
+Proof. exact amr_segments_thm. Qed.
+Print Assumptions C16_amr_segments_in_cells.
+
+Theorem C16_amr_tau_sum : forall g cells ph target, agood g cells ph target ->
+  forall fuel r, amr_interact ROps R_sqrt.sqrt (1 / 2) true true true fuel g cells ph target = AOk r ->
+  sumtauA (lkappaA cells ph) (ar_vis r) <= target /\
+  (ar_cell r <> None -> sumtauA (lkappaA cells ph) (ar_vis r) = target) /\
+  (ar_cell r = None -> 0 <= as_tau (ar_fin r) /\ sumtauA (lkappaA cells ph) (ar_vis r) = target - as_tau (ar_fin r)).
+Proof. exact amr_tau_thm. Qed.
+Print Assumptions C16_amr_tau_sum.
+
+Theorem C16_amr_absorbed_in_returned_cell : forall g cells ph target, agood g cells ph target ->
+  forall fuel r c, amr_interact ROps R_sqrt.sqrt (1 / 2) true true true fuel g cells ph target = AOk r -> ar_cell r = Some c ->
+  sumtauA (lkappaA cells ph) (ar_vis r) = target /\ as_tau (ar_fin r) <= 0 /\
+  (exists pre len, ar_vis r = pre ++ [(c, len)]) /\ okleaf g c /\
+  exists wl, ashift_ok g wl /\ in_tbox (box_of ROps (1 / 2) g c) (ashifted g (ar_pos r) wl) /\
+    (as_tau (ar_fin r) < 0 -> forall a, wl a = 0%Z).
+Proof. exact amr_absorbed_thm. Qed.
+Print Assumptions C16_amr_absorbed_in_returned_cell.
+
+Theorem C16_amr_escaped_through_open_face : forall g cells ph target, agood g cells ph target ->
+  forall fuel r, amr_interact ROps R_sqrt.sqrt (1 / 2) true true true fuel g cells ph target = AOk r -> ar_cell r = None ->
+  0 <= as_tau (ar_fin r) /\ sumtauA (lkappaA cells ph) (ar_vis r) = target - as_tau (ar_fin r) /\
+  exists a, bg a (ag_per g) = false /\
+    ((vg a (ar_pos r) = vg a (ag_anchor g) /\ vg a (lp_dir ph) < 0) \/
+     (vg a (ar_pos r) = vg a (ag_anchor g) + vg a (ag_sides g) /\ 0 < vg a (lp_dir ph))).
+Proof. exact amr_escaped_thm. Qed.
+Print Assumptions C16_amr_escaped_through_open_face.
+
+Theorem C16_amr_final_position_in_box : forall g cells ph target, agood g cells ph target ->
+  forall fuel r, amr_interact ROps R_sqrt.sqrt (1 / 2) true true true fuel g cells ph target = AOk r ->
+  forall a, vg a (ag_anchor g) <= vg a (ar_pos r) <= vg a (ag_anchor g) + vg a (ag_sides g).
+Proof. exact amr_in_box_thm. Qed.
+Print Assumptions C16_amr_final_position_in_box.
+
+Theorem C16_amr_premises_satisfiable : forall blk : Z -> Z -> Z -> C16_Defs.tree,
+  agood (mkAG (mkV 0 0 0) (mkV 1 1 1) (mkI 2 2 2) (mkBV true false true) blk) (fun _ => mkC 1 1 0)
+        (mkLP (mkV (1 / 2) (1 / 2) (1 / 2)) (mkV 1 0 0) 1 0 1) (1 / 4).
+Proof. exact agood_example. Qed.
+Print Assumptions C16_amr_premises_satisfiable.
+
+(* REFUTED for the PINNED AMRDensityGrid::interact (faithful model, flags false; binary64 witnesses, replayed on
+   the real class by props/c16_interact.py on every run).
+   A: absorbed in an outermost cell while heading for its open face: end() although the target was reached at
+      x = 0.75 inside the only cell (optical depth left < 0, path 0.25 credited) *)
+Theorem C16_amr_absorbed_reported_escaped_refuted :
+  exists r, f_amr_interact false false false fuel100 (ag_one (mkBV false false false)) (fun _ => one_cell) ph_centre 0.25%float = AOk r /\
+            ar_cell r = None /\ ar_pos r = (mkV 0.75 0.5 0.5)%float /\ ar_vis r = [(the_cell, 0.25%float)] /\
+            PrimFloat.ltb (as_tau (ar_fin r)) 0%float = true.
+Proof. exact amr_absorbed_reported_escaped_refuted_thm. Qed.
+Print Assumptions C16_amr_absorbed_reported_escaped_refuted.
+
+(* B: one cell along a periodic axis: the loop does not end for ANY number of iterations *)
+Theorem C16_amr_periodic_single_cell_hang_refuted : forall fuel,
+  f_amr_interact false false false fuel (ag_one (mkBV true false false)) (fun _ => one_cell) ph_centre 0.75%float = AErrFuel.
+Proof. exact amr_periodic_single_cell_hang_refuted_thm. Qed.
+Print Assumptions C16_amr_periodic_single_cell_hang_refuted.
+
+(* C: crossing a periodic face into a finer region: the far child [0.5,1]x[0,0.5]^2 is entered, credited and
+   returned; the final position (0.25,0.25,0.25) is not in it (defects A and B repaired, C not) *)
+Theorem C16_amr_periodic_wrong_child_refuted :
+  exists r, f_amr_interact true true false fuel100 ag_two (fun _ => one_cell) (ph_of (mkV 1.5 0.25 0.25) (mkV 1 0 0))%float 0.75%float = AOk r /\
+            ar_cell r = Some far_child /\ ar_pos r = (mkV 0.25 0.25 0.25)%float /\
+            ar_vis r = [(right_block, 0.5%float); (far_child, 0.25%float)] /\
+            f_box_of ag_two far_child = mkTB (mkV 0.5 0 0)%float (mkV 0.5 0.5 0.5)%float.
+Proof. exact amr_periodic_wrong_child_refuted_thm. Qed.
+Print Assumptions C16_amr_periodic_wrong_child_refuted.
+
+(* the same three inputs on the repaired code *)
+Theorem C16_amr_examples_fixed :
+  (exists r, f_amr_interact true true true fuel100 (ag_one (mkBV false false false)) (fun _ => one_cell) ph_centre 0.25%float = AOk r /\
+             ar_cell r = Some the_cell /\ ar_pos r = (mkV 0.75 0.5 0.5)%float /\ ar_vis r = [(the_cell, 0.25%float)]) /\
+  (exists r, f_amr_interact true true true fuel100 (ag_one (mkBV true false false)) (fun _ => one_cell) ph_centre 0.75%float = AOk r /\
+             ar_cell r = Some the_cell /\ ar_pos r = (mkV 0.25 0.5 0.5)%float /\ ar_vis r = [(the_cell, 0.5%float); (the_cell, 0.25%float)]) /\
+  (exists r, f_amr_interact true true true fuel100 ag_two (fun _ => one_cell) (ph_of (mkV 1.5 0.25 0.25) (mkV 1 0 0))%float 0.75%float = AOk r /\
+             ar_cell r = Some near_child /\ ar_pos r = (mkV 0.25 0.25 0.25)%float /\
+             ar_vis r = [(right_block, 0.5%float); (near_child, 0.25%float)] /\
+             f_box_of ag_two near_child = mkTB (mkV 0 0 0)%float (mkV 0.5 0.5 0.5)%float).
+Proof. exact (conj f_amr_absorbed_in_outermost_cell_fixed (conj f_amr_periodic_single_cell_fixed f_amr_periodic_child_fixed)). Qed.
+Print Assumptions C16_amr_examples_fixed.
